@@ -605,6 +605,13 @@ def chunks_skipped(an, rep):
                 return x[0] == "arg" and (x[2] == "stored_version" or (len(x) > 3 and x[3] == "u8"))
             return False
         for p in paths:
+            # `for _ in 0..stored_version as usize + 1`
+            for e in p.calls():
+                for x in e[5]:
+                    for y in mir.walk_expr(x):
+                        if y[0] == "agg" and y[1] == "adt" and y[2] == "core::ops::range::Range" and len(y[4]) == 2 and \
+                                guards.rng(y[4][0]) == (0, 0) and plus_one_of_version(y[4][1]):
+                            found = True
             for a in p.atoms():
                 c = a[1]
                 if c[0] == "bin" and c[1] in ("Lt", "Gt", "Ne", "Ge", "Le"):
